@@ -450,7 +450,7 @@ def updates(ctx):
             stmts.append(s)
     names = [s.targets[0].id for s in stmts]
     if names[:2] != ["w_iobs", "Sigma"] or "mu" not in names:
-        ctx.add(ObResult("C19/student.fit_mvstud/update-statements-found", "unknown", detail=f"unexpected update statements {names}"))
+        ctx.add(ObResult("C19/student.fit_mvstud/update-statements-found", "unknown", detail=f"unexpected update statements {names}")).replayer = "c19_student"
         return
     I = ctx.interp(extras={"builtins.sum": lambda I_, st_, args, kw, node: sums.total(st_, st_.arr(args[0]))})
     I.cur.append((ST, "fit_mvstud"))
@@ -472,11 +472,11 @@ def updates(ctx):
     st.env = {"data": st.new_arr(data), "mu": st.new_arr(mu0), "diffs": st.new_arr(diffs), "delta_iobs": st.new_arr(delta), "nu": nu, "dim": d, "n": n}
     try:
         outs = [o for o in I.exec_block(stmts, st, ST) if o.kind == "fall"]
-    except Unsupported as e:
-        ctx.add(ObResult("C19/student.fit_mvstud/update-statements/vc-generation", "unknown", detail=f"outside the supported subset: {e}"))
+    except __import__("pyvc.values", fromlist=["x"]).engine_errors() as e:
+        ctx.add(ObResult("C19/student.fit_mvstud/update-statements/vc-generation", "unknown", detail=f"outside the supported subset: {type(e).__name__}: {str(e)[:200]}")).replayer = "c19_student"
         return
     if len(outs) != 1:
-        ctx.add(ObResult("C19/student.fit_mvstud/update-statements/vc-generation", "unknown", detail="update statements fork or raise"))
+        ctx.add(ObResult("C19/student.fit_mvstud/update-statements/vc-generation", "unknown", detail="update statements fork or raise")).replayer = "c19_student"
         return
     sf = outs[0].state
     from pyvc import discharge
@@ -506,7 +506,7 @@ def updates(ctx):
                                                           z3.And(Sg.at(x, y) == Sg.at(y, x), z3.Implies(x == y, Sg.at(x, y) >= 0))))), kind="vc")
         r.replayer = "c19_student"
     else:
-        ctx.add(ObResult("C19/student.fit_mvstud/update-statements/scale:is-a-matrix-product", "unknown", detail="Sigma is not np.dot(...)/n"))
+        ctx.add(ObResult("C19/student.fit_mvstud/update-statements/scale:is-a-matrix-product", "unknown", detail="Sigma is not np.dot(...)/n")).replayer = "c19_student"
     # location: weighted average inside the box
     rows = [(arr, ax, P) for (arr, ax, P) in sf.ghost.get("sumarrs2", []) if ax == 1]
     tot = [(arr, P) for (arr, P) in sf.ghost.get("sumarrs", []) if arr is w or (arr.prov and arr.prov[0] == "copy" and arr.prov[1] is w)]
@@ -526,7 +526,7 @@ def updates(ctx):
                       detail="mu_a = sum_i w_i x_ai / sum_i w_i with w_i > 0: a convex combination of the data")
         r.replayer = "c19_student"
     else:
-        ctx.add(ObResult("C19/student.fit_mvstud/update-statements/location:is-a-weighted-average", "unknown", detail="mu is not a row sum over a total"))
+        ctx.add(ObResult("C19/student.fit_mvstud/update-statements/location:is-a-weighted-average", "unknown", detail="mu is not a row sum over a total")).replayer = "c19_student"
 
 
 # ------------------------------------------------------------------------------------------ O4: fallback
